@@ -310,6 +310,27 @@ b('helper_extracted_has_room', 'try_send_realtime: the admission test is moved i
 fn has_room<T>(internal: &ChannelInternal<T>) -> bool {
     internal.queue.len() < internal.capacity
 }""")])
+b('observer_calls_observer', 'is_empty implemented as self.len() == 0',
+  [(LIB, 'pub fn is_empty(&self)', 'acquire_internal(&self.internal).queue.is_empty()', 'self.len() == 0')])
+b('try_lock_swap_form', 'try_lock as !swap(true, Acquire)',
+  [(MUT, 'fn try_lock', """        self.locked
+            .compare_exchange(false, true, Ordering::Acquire, Ordering::Relaxed)
+            .is_ok()""", """        !self.locked.swap(true, Ordering::Acquire)""")])
+b('drop_last_flag_local', 'Drop computes the last-handle condition into a local first',
+  [(LIB, 'impl<T> Drop for Sender<T>', """            if internal.send_count == 0 && internal.recv_count != 0 {
+                internal.terminate_signals();
+            }""", """            let last = internal.send_count == 0;
+            if last && internal.recv_count != 0 {
+                internal.terminate_signals();
+            }""")])
+b('wait_more_spins', 'Signal::wait spins 1024 times before parking',
+  [(SIG, 'pub(crate) fn wait(&self)', 'for _ in 0..256 {', 'for _ in 0..1024 {')])
+b('wake_clone_before_cas', 'wake clones the thread handle only after the CAS failed but binds the Option first',
+  [(SIG, 'unsafe fn wake', 'let thread = (*waker.get()).as_ref().unwrap().clone();', 'let handle = (*waker.get()).as_ref();\n                    let thread = handle.unwrap().clone();')])
+b('iterator_next_match', 'Iterator::next uses match instead of ok()',
+  [(LIB, 'impl<T> Iterator for Receiver<T>', 'self.recv().ok()', 'match self.recv() {\n            Ok(v) => Some(v),\n            Err(_) => None,\n        }')])
+b('recv_timeout_deadline_plus', 'recv_timeout computes the deadline with + instead of checked_add().unwrap()',
+  [(LIB, 'pub fn recv_timeout', 'let deadline = Instant::now().checked_add(duration).unwrap();', 'let deadline = Instant::now() + duration;')])
 
 
 def apply(text, marker, old, new, fname):
